@@ -71,7 +71,13 @@ def extract_fn(unit):
         text = expand_match_any(text)
         notes.append("match_any! expanded to one match arm per top-level alternative")
     for old, new in unit.get("rewrites", []):
-        if old in text:
+        if old.startswith("re:"):
+            # a macro expansion rule with identifier holes (the proc-macro's own expansion, read off macros/src/)
+            text2 = re.sub(old[3:], new, text)
+            if text2 != text:
+                text = text2
+                notes.append(f"rewrite rule applied: /{old[3:]}/ -> `{new}`")
+        elif old in text:
             text = text.replace(old, new)
             notes.append(f"rewrite applied: `{old}` -> `{new}`")
     text, dropped = strip_attrs(text)
